@@ -5,7 +5,8 @@
 import concurrent.futures as cf, glob, json, os, re, subprocess, sys
 
 V = os.path.dirname(os.path.abspath(__file__))
-SEEDS = sorted(os.path.basename(d.rstrip('/')) for d in glob.glob(V + '/seeded/*/') if os.path.exists(d + 'patch.diff'))
+ALL = sorted(os.path.basename(d.rstrip('/')) for d in glob.glob(V + '/seeded/*/') if os.path.exists(d + 'patch.diff'))
+SEEDS = [s for s in ALL if s in sys.argv[2:]] if len(sys.argv) > 2 and sys.argv[1] != 'meta' else ALL   # optional: only these seeds
 ALSO = {'C01-A': ['C09'], 'C18-A': ['C16'], 'r2-C15-A': ['C16'], 'r2-C01-B': ['C09'], 'r2-C18-B': ['C16']}
 LOG = V + '/.work/seedall'
 os.makedirs(LOG, exist_ok=True)
